@@ -82,7 +82,17 @@ class FreqShiftMonitor:
         x = gen.np_data(z)
         y = gen.np_data(out)
         if not np.all(np.isfinite(x)):
+            # flagged / saturated samples: the only thing that can be judged is the statement's last clause - an element shifted by
+            # a full bandwidth or more is *exactly zero* whatever it held (everything left the band)
             ctx.count("skipped_nonfinite")
+            a_nf = (df_b * N / float(m["rate"])).reshape(-1)
+            full_nf = np.abs(a_nf) >= N
+            if np.any(full_nf) and y.shape == x.shape:
+                ctx.count("oracle[full_band_zero_nonfinite]")
+                cols = y.reshape(N, -1)[:, full_nf]
+                if np.any(cols != 0):
+                    ctx.violation(o, "an element shifted by a full bandwidth or more is not exactly zero when its input holds NaN/Inf samples "
+                                     f"({int(np.isnan(cols).sum())} NaN in the output)", None, dict(feats, what="full_band_nonfinite"))
             return
         sr = float(m["rate"])
         a_b = df_b * N / sr                       # shift in bins, per element
@@ -211,6 +221,9 @@ def wl_shift(ctx, idx, rng):
         n = np.arange(N).reshape((N,) + (1,) * len(sshape))
         x = x + (4 * np.exp(2j * np.pi * (N // 2 - 1) * n / N) + 4 * np.exp(-2j * np.pi * (N // 2) * n / N)).astype(dtype)
         x = x.astype(dtype)
+    if vk == "beyond" and N >= 2 and rng.random() < 0.3:
+        x = x.copy()
+        x.flat[int(rng.integers(x.size))] = gen.pick(rng, [np.nan, np.inf, complex(np.nan, 1.0), -np.inf])      # flagged / saturated sample
     rate = gen.rand_rate(rng, lo=0, hi=8.5)
     sig, desc = gen.make_signal(rng, clsname, N, data=x, rate=rate, dask=use_dask, mem="readonly" if gen._side_rng(rng).random() < 0.1 else "rand")
     a = make_shift_bins(rng, N, sshape, vk, sk)
